@@ -181,7 +181,7 @@ def main():
                 M = get_op(r=rv, phi=pv, cutoff=cutoff, complex_dtype=np.complex128, connector=conn)
                 L = tf.math.real(tf.reduce_sum(tf.constant(np.conj(up)) * tf.cast(M, tf.complex128)))
             g = tape.gradient(L, [rv, pv])
-            r["tape"] = [0.0 if x is None else float(np.real(x.numpy())) for x in g]
+            r["tape"] = [0.0 if x is None else float(np.real(np.asarray(x))) for x in g]
             r["tape_none"] = [x is None for x in g]
             r["entry_matrix_err"] = float(np.abs(np.asarray(M) - F(rr, phi)).max())
         except Exception as e:
